@@ -1,5 +1,6 @@
-import sys, json, subprocess, random, time, collections
-sys.path.insert(0, '/verif')
+import sys, json, subprocess, random, time, collections, os
+ROOT = os.path.dirname(os.path.dirname(os.path.abspath(__file__)))
+sys.path.insert(0, ROOT)
 from harness import sim, coreenc, coregen
 seed = int(sys.argv[1]) if len(sys.argv) > 1 else 0
 N = int(sys.argv[2]) if len(sys.argv) > 2 else 100
@@ -18,7 +19,7 @@ for i in range(N):
 print("gen", time.time() - t0, "crashes", crashes)
 lines = [coreenc.enc_scenario(sc) for sc, _ in scs]
 t0 = time.time()
-out = subprocess.run(['/verif/lean/.lake/build/bin/circusdrv'], input="\n".join(lines) + "\n", capture_output=True, text=True)
+out = subprocess.run([os.path.join(ROOT, 'lean/.lake/build/bin/circusdrv')], input="\n".join(lines) + "\n", capture_output=True, text=True)
 print("model", time.time() - t0, out.stderr[:500])
 outs = out.stdout.split("\n")
 bad = 0
